@@ -428,7 +428,19 @@ func bindParams(bind map[string]Val, f *ssa.Function, args []Val) {
 			}
 		}
 	}
+	if theEngine != nil {
+		for old, cur := range theEngine.paramRenames(f) {
+			if b, ok := bind[cur]; ok {
+				if _, clash := bind[old]; !clash {
+					bind[old] = b
+				}
+			}
+		}
+	}
 }
+
+// theEngine: the engine of this process (bindParams is a plain function used from several places).
+var theEngine *engine
 
 // ifaceContract finds the contract of method m of interface type t (or of an
 // interface it embeds).
